@@ -4,7 +4,7 @@
 ROOT=$(cd "$(dirname "$0")/.." && pwd); TIER=${1:-quick}; shift
 NAMES=${*:-$(ls "$ROOT/seeded")}
 for n in $NAMES; do
-  p=$(python3 -c "import json;print(json.load(open('$ROOT/seeded/$n/meta.json'))['property'])")
+  p=$(python3 -c "import json;m=json.load(open('$ROOT/seeded/$n/meta.json'));print(m.get('checked_by',m['property']))")
   t0=$(date +%s)
   res=$("$ROOT/tools/run_seed.sh" "$n" "$p" "$TIER" 2>&1 | tail -1)
   echo "$n $p $res $(( $(date +%s) - t0 ))s"
